@@ -503,7 +503,7 @@ func (f *OrefaFile) Stat() (info fs.FileInfo, err error) {
 		return &OrefaInfo{}, &fs.PathError{Op: op, Path: f.name, Err: err}
 	}
 
-	_, name := avfs.SplitAbs(f.vfs, f.name)
+	name := f.vfs.Base(f.name)
 	info = f.nd.fillStatFrom(name)
 
 	return info, nil
